@@ -122,3 +122,10 @@ CHECKS["C02"] = dict(
  text="(a) every cell of the operator table: 20 binary operators, 5 op-assignments, ?= and 4 unary operators x 16 x 16 type representatives (int, bigint, float, byte, bool, str, open list, fixed-shape list, map, int? present / nil / boxed, str?, function, class, alias); (b) every (expected, supplied) type pair x 8 typed positions (annotated initialiser, re-assignment, argument, return value, pushed element, map value, field assignment, or-fallback); (c) every function-body skeleton of depth 1 (and depth 2: every 9th quick / all thorough) over {if, if/else, else-if, while, from} with return / no-return leaves, each accepted skeleton called with all condition vectors and its result stored and printed. The compiler's own verdict partitions the space; for each accepted program execution must not end in a dynamic type error (anything outside the defined failure classes) and the run-time kind (hook H2) of each printed value must fit the `typeof` text of the same expression (nil exempt).",
  note="Failure classification per DESIGN Appendix A. When an operand of the cell is nil the failure is the defined use-of-nil whatever its wording.",
  design_ref="DESIGN.md section 4, C02")
+
+CHECKS["C16"] = dict(
+ category="exploration",
+ technique="bounded exhaustive enumeration of inputs: deviation-bounded derivations of the project's own grammar.pest, exhaustive single-token mutation of a corpus, nesting towers; every input compiled by the real CLI",
+ text="(a) grammar.pest is parsed at check time; every derivation that departs from the minimal one in <= 3 (quick) / <= 4 (thorough) decision points (alternative, repetition count, optional) for 15 roots (declaration, value in 4 embeddings, type in 2, class, import, function, reassignment, number_loop, if_statement, list, map) x 6 host contexts x preludes declaring the identifier with 3 (quick) / 8 (thorough) different types; (b) every single-token mutation (delete, duplicate, swap, replace by / insert each token of a 24- / 53-token alphabet) at every token position of the 6 smallest (quick) / all (thorough, capped) single-module corpus files; (c) nesting towers of 13 nestable constructs up to 4 kB. Oracle: `mscript compile` ends within 10 s with exit 0 or exit 1 + diagnostic; panic / abort / timeout is a violation, keyed by panic site and message.",
+ note="Thorough tier explored 6.6 M inputs in 30 min on the pinned tree (12 distinct crash sites, all listed as known findings). Arbitrary byte soup is not covered.",
+ design_ref="DESIGN.md section 4, C16")
